@@ -39,7 +39,8 @@ from ..core import Verdict
 
 IDS = ("C16",)
 BUDGET = {"quick": 4000, "thorough": 15000}
-SIZE_BOUNDS = {"quick": "<= 30 events per history", "thorough": "<= 80 events per history"}
+SIZE_BOUNDS = {"quick": "<= 30 events per history (<= 160 when the scripted back-off ladder is part of it)",
+               "thorough": "<= 80 events per history (<= 160 with the ladder)"}
 RULE = {
     "C16": (
         "Hypothesis-generated histories for a real BatteryStatusTracker (max data age 10 s, blocking 1 s doubling to 30 s) on a "
@@ -110,6 +111,20 @@ def strategy(tier: str, pid: str = "C16") -> st.SearchStrategy[Any]:
         [["inv", "late"], ["adv", 2.0], ["inv", "stale"], ["adv", 1.0], ["bat", "ok"]],
         [["bat", "late"], ["adv", 9.9], ["inv", "ok"], ["adv", 0.2], ["inv", "ok"]],
     ]
+    # the whole back-off ladder 1, 2, 4, 8, 16, 30 s (cap): each failure after the previous block expired, data kept
+    # fresh in between; then a success and another failure, which must block for the minimum again
+    def keep_fresh(total: float) -> list[list[Any]]:
+        out: list[list[Any]] = []
+        while total > 4.0:
+            out += [["adv", 4.0], ["bat", "ok"], ["inv", "ok"]]
+            total -= 4.0
+        return out + [["adv", round(total, 3)], ["bat", "ok"], ["inv", "ok"]]
+
+    ladder: list[list[Any]] = []
+    for d in (1.0, 2.0, 4.0, 8.0, 16.0, 30.0):
+        ladder += [["res", "failed"]] + keep_fresh(d + 0.1)
+    phrases.append(ladder + [["res", "succeeded"], ["res", "failed"], ["adv", 1.1], ["bat", "ok"], ["inv", "ok"]])
+    phrases.append(ladder[: len(ladder) // 2] + [["res", "succeeded"], ["res", "failed"], ["adv", 1.1], ["bat", "ok"]])
     phrase = st.sampled_from(phrases)
     nops = 30 if tier == "quick" else 80
     pool_status = st.fixed_dictionaries({
@@ -120,7 +135,8 @@ def strategy(tier: str, pid: str = "C16") -> st.SearchStrategy[Any]:
         out: list[Any] = [["bat", "ok"], ["inv", "ok"]]
         for item in items:
             out += item if item and isinstance(item[0], list) else [item]
-        return out[: nops + 2]
+        # histories are cut at nops atomic operations, except when they contain the (long) back-off ladder
+        return out[: (nops + 2) if not any(item and isinstance(item[0], list) and len(item) > 20 for item in items) else 160]
 
     single = st.fixed_dictionaries({
         "ops": st.lists(st.one_of(op, op, op, op, phrase), min_size=4, max_size=nops).map(flatten),
